@@ -1,6 +1,6 @@
 /-
-Model of `Store::validate` (src/storage.rs:530-734): which criteria references are checked
-against the criteria table when a store is loaded, the wildcard end-date cap, and the
+Model of `Store::validate` (src/storage.rs): the well-formedness check of the criteria table,
+which criteria references are checked against it when a store is loaded, the wildcard end-date cap, and the
 locked-mode staleness check of imports.lock.  `today + 12 months` is supplied as a day number
 (chrono's calendar arithmetic is not modelled).
 -/
@@ -11,6 +11,7 @@ inductive ValidateError
   | invalidCriteria       -- a reference to an undefined criterion at a checked site
   | badWildcardEndDate
   | importsLockOutdated
+  | invalidCriteriaTable  -- the table redefines a built-in, is too large, or has an implication cycle
 deriving Repr, DecidableEq
 
 def badRefs (n : Nat) (l : List Nat) : Nat := (l.filter (fun i => decide (n ≤ i))).length
@@ -25,17 +26,25 @@ def policyBad (n : Nat) (p : Policy) : Nat :=
     | .unversioned e => policyEntryBad n e
     | .versioned vs => (vs.map (fun v => policyEntryBad n v.2)).sum)).sum
 
+/-- undefined criteria in the audits and wildcard audits of one (imports.lock) audits file -/
+def afileBad (n : Nat) (f : AFile) : Nat :=
+  (f.audits.map (fun e => (e.2.map (fun a => badRefs n a.criteria)).sum)).sum
+  + (f.wildcards.map (fun e => (e.2.map (fun a => badRefs n a.criteria)).sum)).sum
+
 /-- number of `InvalidCriteria` errors `validate` reports: exemptions, policy (criteria,
-dev-criteria, dependency-criteria), `implies`, local audits, local wildcard audits.
-NOT checked by the code: trusted entries, imports.lock, criteria-map targets, and the
-well-formedness of the criteria table itself. -/
-def invalidCriteriaCount (t : Table) (s : Store) : Nat :=
+dev-criteria, dependency-criteria), `implies`, local audits, local wildcard audits, `trusted`
+entries, the targets of every import's `criteria-map` (`mapTargets`), and — for a locked load,
+which uses imports.lock as it is — the audits and wildcard audits recorded in imports.lock. -/
+def invalidCriteriaCount (t : Table) (s : Store) (locked : Bool) (mapTargets : List (List Nat)) : Nat :=
   let n := t.n
   (s.exemptions.map (fun e => (e.2.map (fun x => badRefs n x.criteria)).sum)).sum
   + policyBad n s.policy
   + (t.map (fun c => badRefs n c.implies)).sum
   + (s.locals.audits.map (fun e => (e.2.map (fun a => badRefs n a.criteria)).sum)).sum
   + (s.locals.wildcards.map (fun e => (e.2.map (fun a => badRefs n a.criteria)).sum)).sum
+  + (s.trusted.map (fun e => (e.2.map (fun x => badRefs n x.criteria)).sum)).sum
+  + (mapTargets.map (badRefs n)).sum
+  + (if locked then (s.imports.map (afileBad n)).sum else 0)
 
 def lateWildcards (maxEnd : Nat) (s : Store) : Nat :=
   (s.locals.wildcards.map (fun e => (e.2.filter (fun w => decide (maxEnd < w.stop))).length)).sum
@@ -48,18 +57,24 @@ def importsLockOutdated (cfgImports : List (Nat × List Nat)) (lockNames : List 
   (cfgImports.zip lock).any (fun ((_, excl), f) =>
     excl.any (fun c => (f.audits.any (fun e => e.1 == c)) || (f.wildcards.any (fun e => e.1 == c))))
 
-/-- `Store::validate(today, check_file_formatting)` without the formatting self-check -/
+/-- `Store::validate(today, check_file_formatting)` without the formatting self-check;
+`mapTargets`: the local criteria lists on the right-hand sides of all `criteria-map` entries -/
 def validate (t : Table) (s : Store) (maxEnd : Nat) (locked : Bool)
-    (cfgImports : List (Nat × List Nat)) (lockNames : List Nat) : List ValidateError :=
-  List.replicate (invalidCriteriaCount t s) .invalidCriteria
+    (cfgImports : List (Nat × List Nat)) (lockNames : List Nat) (mapTargets : List (List Nat)) :
+    List ValidateError :=
+  (if checkTable t then [] else [.invalidCriteriaTable])
+  ++ List.replicate (invalidCriteriaCount t s locked mapTargets) .invalidCriteria
   ++ List.replicate (lateWildcards maxEnd s) .badWildcardEndDate
   ++ (if locked && importsLockOutdated cfgImports lockNames s.imports then [.importsLockOutdated] else [])
 
+/-- the audits file only names defined local criteria -/
+def AFile.RefsValid (n : Nat) (f : AFile) : Prop :=
+  (∀ e ∈ f.audits, ∀ a ∈ e.2, ∀ c ∈ a.criteria, c < n) ∧
+  (∀ e ∈ f.wildcards, ∀ a ∈ e.2, ∀ c ∈ a.criteria, c < n)
+
 /-- every criteria reference at a site the resolver will evaluate is defined -/
 def AllRefsValid (t : Table) (s : Store) : Prop :=
-  invalidCriteriaCount t s = 0 ∧
-  (∀ e ∈ s.trusted, ∀ x ∈ e.2, ∀ c ∈ x.criteria, c < t.n) ∧
-  (∀ f ∈ s.imports, (∀ e ∈ f.audits, ∀ a ∈ e.2, ∀ c ∈ a.criteria, c < t.n) ∧
-                    (∀ e ∈ f.wildcards, ∀ a ∈ e.2, ∀ c ∈ a.criteria, c < t.n))
+  invalidCriteriaCount t s false [] = 0 ∧
+  (∀ f ∈ s.imports, f.RefsValid t.n)
 
 end Vet
